@@ -15,7 +15,7 @@ RULE = ("1-D: N in {4,5,8,9,12} x modes 1..N/2+2 x channels {1,2} x (linear, ski
         "in {1..4}^2; FNO with 1-2 layers; inputs: every basis field delta_(node,channel) and every real Fourier mode; every "
         "shift; resolution pairs (N,2N,3N) with every band-limited mode; distinct by configuration")
 ASSUMPTIONS = ["dense DFT reference in float64 written in this file (no torch.fft)", "tolerance 1e-5 (float32 layers)"]
-BOUNDS = {"quick": {"N1": [4, 5, 8, 9, 12], "N2": [4, 5, 6]}, "thorough": {"N1": [4, 5, 6, 7, 8, 9, 12, 16], "N2": [4, 5, 6, 7]}}
+BOUNDS = {"quick": {"N1": [4, 5, 8, 9, 12], "N2": [4, 5, 6]}, "thorough": {"N1": [3, 4, 5, 6, 7, 8, 9, 10, 11, 12, 16, 17], "N2": [3, 4, 5, 6, 7, 8]}}
 ITEM_LIMIT = {"quick": 900, "thorough": 3600}
 
 
